@@ -59,9 +59,10 @@ func init() {
 }
 
 var (
-	c07svc = []string{"sa", "sb", "sc"}
-	c07tag = []string{"tx", "ty"}
-	c07par = []string{"pa", "pb", "pc"}
+	// names that are prefixes / substrings of one another, and that differ in case only
+	c07svc = []string{"sa", "sab", "Sa"}
+	c07tag = []string{"tx", "txy"}
+	c07par = []string{"pa", "pab", "p"}
 )
 
 func (a c07atom) String() string {
